@@ -131,8 +131,10 @@ def check_type(acc, sch, w, mod, midx, name, tags):
 
 
 def check_fixed_lengths(acc, sch, w, mod, name, rng, nrand):
+    """len(encode()) of a fixed type must be its size for any value; for non-fixed types the length the Python
+    runtime derives (its per-block alignment is part of the layout it computes) must be the reference length."""
     size, align, stiff = w.tinfo(name)
-    if stiff != S.FIXED_S or sch.by_name[name].kind == 'typedef':
+    if sch.by_name[name].kind == 'typedef':
         return
     for mode, v in V.value_set(sch, w, name, rng, nrand=nrand, aligned_greedy=False):
         try:
@@ -141,6 +143,15 @@ def check_fixed_lengths(acc, sch, w, mod, name, rng, nrand):
             n = len(m.encode('<'))
         except Exception:  # noqa - C01's business
             acc.count('fixed_len_encode_raised')
+            continue
+        if stiff != S.FIXED_S:
+            ref = len(w.encode(name, v, '<')[0])
+            acc.count('dynamic_encoding_lengths_measured')
+            if n != ref:
+                sub = sch.closure(name)
+                acc.violation(PROP, 'python-derived-layout-length-differs',
+                              {'schema_json': sub.to_json(), 'schema': sub.to_prophy(), 'type': name,
+                               'value': C.jsonable(v), 'length': n, 'reference_length': ref})
             continue
         acc.count('fixed_encodings_measured')
         if n != size:
